@@ -11924,6 +11924,8 @@ tmcg_openpgp_byte_t CallasDonnerhackeFinneyShawThayerRFC4880::PacketDecodeTag57
 		pkt_offset = 10;
 	else
 		return 0xFE; // warning: version not supported
+	if (pkt.size() <= pkt_offset)
+		return 0; // error: no algorithm-specific fields
 	mpis.insert(mpis.end(), pkt.begin()+pkt_offset, pkt.end());
 	if ((out.pkalgo == TMCG_OPENPGP_PKALGO_RSA) ||
 	    (out.pkalgo == TMCG_OPENPGP_PKALGO_RSA_ENCRYPT_ONLY) ||
@@ -12468,6 +12470,8 @@ tmcg_openpgp_byte_t CallasDonnerhackeFinneyShawThayerRFC4880::PacketDecodeTag614
 		pkt_offset = 10;
 	else
 		return 0xFE; // warning: version not supported
+	if (pkt.size() <= pkt_offset)
+		return 0; // error: no algorithm-specific fields
 	mpis.insert(mpis.end(), pkt.begin()+pkt_offset, pkt.end());
 	if ((out.pkalgo == TMCG_OPENPGP_PKALGO_RSA) ||
 	    (out.pkalgo == TMCG_OPENPGP_PKALGO_RSA_ENCRYPT_ONLY) ||
